@@ -174,6 +174,7 @@ def compute_ecc_hash(ecc_manager, hasher, buf, max_block_size, rate, message_siz
 
 def ecc_correct_intra(ecc_manager_intra, ecc_params_intra, field, ecc, entry_pos, enable_erasures=False, erasures_char="\x00", only_erasures=False):
     """ Correct an intra-field with its corresponding intra-ecc if necessary """
+    if ecc_params_intra["ecc_size"] <= 0: return (field, False, True, '') # the intra rate is so low that no ecc symbol at all is generated for this block size: there is nothing to check the field against (and a zero block step is not a valid range)
     fentry_fields = {"ecc_field": ecc}
     field_correct = [] # will store each block of the corrected (or already correct) filepath
     fcorrupted = False # check if field was corrupted
